@@ -126,7 +126,7 @@ def r1(ctx):
             elif t['kind'] == 'pixcoords':
                 body = _vertex_loop_terms(m, wfi) or _vertex_map_terms(m, wfi, t['expr'])
                 if body is None:
-                    raise AnalysisError('C09.R1', construct, 'vertex-formatting loop not found')
+                    continue       # no recognisable per-vertex formatting code: the vertex-string probes below decide
                 ex, ey, specs = body
                 if not (is_num(ex) and num_equal(ex, sym('val.x') + 1) and is_num(ey) and num_equal(ey, sym('val.y') + 1)):
                     probs.append(f'polygon vertices are written as ({show(ex, 60)}, {show(ey, 60)}), not (x + 1, y + 1)')
@@ -192,13 +192,19 @@ def r1(ctx):
     verts = Obj('PixCoord', {'x': Tup(tuple(sp.Integer(k) for k in (1, 2, 3)), 'array'),
                              'y': Tup(tuple(sp.Integer(k) for k in (4, 5, 6)), 'array')}, None, pcc)
     preg = Obj('PolygonPixelRegion', {'vertices': verts}, 'region', m.cls('PolygonPixelRegion'))
-    outp = Evaluator(m).run(gp[0], [preg, Tup((Const('polygon'), Const('{vertices}')))], {'precision': sp.Integer(2)})
-    got = render(outp.returns[0][1], {}) if len(outp.returns) == 1 else f'{len(outp.returns)} outcomes'
-    if got == '2.00,5.00,3.00,6.00,4.00,7.00':
-        ctx.ok('PolygonPixelRegion:vertex string', 'vertices (1,4),(2,5),(3,6) at precision 2 -> 2.00,5.00,3.00,6.00,4.00,7.00')
+    bad_v = []
+    for prec, want_v in ((2, '2.00,5.00,3.00,6.00,4.00,7.00'), (11, ','.join(f'{v:.11f}' for v in (2, 5, 3, 6, 4, 7))), (0, '2,5,3,6,4,7')):
+        outp = Evaluator(m).run(gp[0], [preg, Tup((Const('polygon'), Const('{vertices}')))], {'precision': sp.Integer(prec)})
+        got = render(outp.returns[0][1], {}) if len(outp.returns) == 1 else f'{len(outp.returns)} outcomes'
+        if got != want_v:
+            bad_v.append((prec, got, want_v))
+    if not bad_v:
+        ctx.ok('PolygonPixelRegion:vertex string', 'vertices (1,4),(2,5),(3,6) at precisions 0, 2, 11: x+1,y+1 per vertex, in order, '
+               'with the requested number of decimals')
     else:
-        ctx.bad('PolygonPixelRegion', 'vertex-string', f'vertices (1,4),(2,5),(3,6) at precision 2 are written `{got}`, not '
-                '`2.00,5.00,3.00,6.00,4.00,7.00`', gp[0].loc())
+        prec, got, want_v = bad_v[0]
+        ctx.bad('PolygonPixelRegion', 'vertex-string', f'vertices (1,4),(2,5),(3,6) at precision {prec} are written `{got}`, not '
+                f'`{want_v}`', gp[0].loc())
     # regular polygons are converted first
     src = norm(ser.node)
     if 'RegularPolygonPixelRegion' in src and 'to_polygon()' in src:
@@ -629,14 +635,29 @@ def render(t, ph):
             return None if (isinstance(x, Const) and x.v is None) else int(x)
         return render(t.args[0], ph)[iv(t.args[1]):iv(t.args[2]):iv(t.args[3])]
     if isinstance(t, App) and t.name == 'str.format' and isinstance(t.args[0], Const):
-        kw = {a.items[0].v: render(a.items[1], ph) for a in t.args[1:] if isinstance(a, Tup) and len(a.items) == 2
-              and isinstance(a.items[0], Const)}
-        return t.args[0].v.format(**kw)
+        kw, pos = {}, []
+        for a in t.args[1:]:
+            if isinstance(a, Tup) and len(a.items) == 2 and isinstance(a.items[0], Const) and isinstance(a.items[0].v, str):
+                kw[a.items[0].v] = render(a.items[1], ph)
+            elif is_num(a) and a.is_number:
+                pos.append(float(a))
+            else:
+                try:
+                    pos.append(render(a, ph))
+                except AnalysisError:
+                    pos.append(float('nan'))        # a symbolic number: only its position matters to the caller
+        try:
+            return t.args[0].v.format(*pos, **kw)
+        except (IndexError, KeyError, ValueError) as exc:
+            raise AnalysisError('C09.R8', 'metadata string', f'format call not renderable: {exc}')
     if isinstance(t, App) and t.name in ('str', 'call:str') and len(t.args) == 1:
         return render(t.args[0], ph)
     if isinstance(t, App) and t.name == 'apply' and isinstance(t.args[0], App) and t.args[0].name == 'attr:replace' \
             and len(t.args) == 3:
         return render(t.args[0].args[0], ph).replace(render(t.args[1], ph), render(t.args[2], ph))
+    if isinstance(t, App) and t.name == 'apply' and isinstance(t.args[0], App) and len(t.args) == 1 \
+            and t.args[0].name in ('attr:strip', 'attr:lstrip', 'attr:rstrip', 'attr:lower', 'attr:upper'):
+        return getattr(render(t.args[0].args[0], ph), t.args[0].name[5:])()
     if isinstance(t, App) and t.name == 'binop:Add' and len(t.args) == 2:
         return render(t.args[0], ph) + render(t.args[1], ph)
     if isinstance(t, Tup) and t.kind == 'list':
@@ -679,6 +700,17 @@ def _meta_writer(ctx):
             if f.module == ser.module and f.qualname not in (wfi.qualname, ser.qualname):
                 callees.add(f.qualname)
     cands = [f for f in mod.functions.values() if f.qualname in callees]
+    if len(cands) > 1:
+        # several helpers: the builder is the one that turns {'text': T} into a string mentioning `text=`
+        keep = []
+        for c in cands:
+            try:
+                txt = render(Evaluator(m).call(c, [DictV([{'text': Obj('str', {}, 'T')}])], {}), PLACEHOLDERS)
+            except AnalysisError:
+                continue
+            if isinstance(txt, str) and 'text=' in txt:
+                keep.append(c)
+        cands = keep
     ctx.need(len(cands) == 1, ser.qualname, f'metadata string builder not identified ({[c.qualname for c in cands]})')
     return meta_fn, cands[0]
 
